@@ -28,7 +28,11 @@ class DomainStep(Family):
     def configs(self, tier):
         Ls = (3, 4) if tier == "quick" else (3, 4, 5, 6)
         # min/max over L symbolic values forks over all orderings: normalisation is bounded at L <= 5
-        return [{"L": L, "d": d} for L in Ls for d in domain_ops(tier) if not (L > 5 and d["op"].startswith("normalize"))]
+        ops = list(domain_ops(tier))
+        if tier == "quick":
+            # one bound a ratio, the other an absolute value: cheap in a single step (left out of the quick histories only)
+            ops += [{"op": "truncate_by_value", "lr": False, "rr": True}, {"op": "truncate_by_value", "lr": True, "rr": False}]
+        return [{"L": L, "d": d} for L in Ls for d in ops if not (L > 5 and d["op"].startswith("normalize"))]
 
     def run(self, ctx, inst, L, d):
         st = make_state(ctx, L, "tracked")
